@@ -6,9 +6,12 @@ import (
 	"encoding/json"
 	"errors"
 	"fmt"
+	"os"
+	"runtime"
 	"runtime/debug"
 	"sort"
 	"strings"
+	"sync/atomic"
 	"time"
 
 	badgerds "github.com/dgraph-io/badger/v4"
@@ -278,4 +281,37 @@ func SortedKeys[V any](m map[string]V) []string {
 	}
 	sort.Strings(ks)
 	return ks
+}
+
+// Watchdog aborts a driver that makes no progress: if the counter does not change for limit, the stacks of the
+// goroutines that are inside the repository or the harness are written to stderr and the process exits with code 4
+// (an infrastructure failure for the caller, with the evidence needed to tell a deadlock of the real code from one of
+// the harness).
+func Watchdog(progress *atomic.Int64, limit time.Duration) {
+	go func() {
+		last, since := progress.Load(), time.Now()
+		for {
+			time.Sleep(5 * time.Second)
+			if cur := progress.Load(); cur != last {
+				last, since = cur, time.Now()
+				continue
+			}
+			if time.Since(since) < limit {
+				continue
+			}
+			buf := make([]byte, 1<<24)
+			buf = buf[:runtime.Stack(buf, true)]
+			fmt.Fprintf(os.Stderr, "WATCHDOG: no progress for %s at step %d; goroutines inside defradb / the harness:\n", limit, last)
+			for _, g := range strings.Split(string(buf), "\n\n") {
+				if strings.Contains(g, "sourcenetwork/defradb") && !strings.Contains(g, "cluster.Watchdog") {
+					if len(g) > 1800 {
+						g = g[:1800]
+					}
+					fmt.Fprintln(os.Stderr, g)
+					fmt.Fprintln(os.Stderr)
+				}
+			}
+			os.Exit(4)
+		}
+	}()
 }
